@@ -20,10 +20,10 @@ class C04(Prop):
     level = "fault_enumeration"
     title = "A query's answer does not depend on what was evaluated before it"
     campaigns = {
-        "quick": [("faultfree", 4000, 40), ("faults", 12000, 60), ("enumerated", 600, 60), ("the_enumerated", 1500, 60), ("rules_enumerated", 400, 60), ("extended", 6000, 60),
+        "quick": [("faultfree", 4000, 40), ("faults", 12000, 60), ("enumerated", 600, 60), ("the_enumerated", 1500, 60), ("rules_enumerated", 400, 60), ("extended", 4000, 60), ("known:extended_after_history", 3000, 40),
                   ("known:disjunction+for_all", 320, 30), ("known:disjunction+flatten", 320, 30),
                   ("known:disjunction+nested_query", 320, 30), ("known:predicate_with_repeated_variable", 320, 30), ("known:disjunction_over_different_variables", 320, 30), ("known:disjunction_of_multi_variable_conjunction", 320, 30), ("rules", 3000, 40), ("known:rule_tree_with_alternative_or_next", 320, 40), ("known:kwargs_form_variable_in_multi_variable_query", 320, 30), ("known:falsy_operand", 600, 30)],
-        "thorough": [("faultfree", 60000, 600), ("faults", 200000, 1500), ("enumerated", 12000, 1500), ("the_enumerated", 40000, 1200), ("rules_enumerated", 8000, 1200), ("extended", 100000, 900),
+        "thorough": [("faultfree", 60000, 600), ("faults", 200000, 1500), ("enumerated", 12000, 1500), ("the_enumerated", 40000, 1200), ("rules_enumerated", 8000, 1200), ("extended", 100000, 900), ("known:extended_after_history", 60000, 600),
                      ("known:disjunction+for_all", 4000, 300), ("known:disjunction+flatten", 4000, 300),
                      ("known:disjunction+nested_query", 8000, 300), ("known:predicate_with_repeated_variable", 4000, 300), ("known:disjunction_over_different_variables", 20000, 300), ("known:disjunction_of_multi_variable_conjunction", 20000, 300), ("rules", 60000, 600), ("known:rule_tree_with_alternative_or_next", 6000, 400), ("known:kwargs_form_variable_in_multi_variable_query", 40000, 400), ("known:falsy_operand", 40000, 400)],
     }
@@ -84,6 +84,9 @@ class C04(Prop):
         if campaign == "extended":
             cfg["n_vars"] = rng.choice([1, 2, 2, 2, 3])
             cfg["depth"] = max(1, cfg["depth"])
+        if campaign == "known:extended_after_history":
+            cfg["n_vars"] = rng.choice([1, 2, 2, 2, 3])
+            cfg["depth"] = max(1, cfg["depth"])
         cfg["kinds"] = ["list", "list", "tuple", "gen", "iterobj"]
         cfg["allow_nodom"] = True
         # falsy attribute values (0, []) are dropped inside comparison operands by the pinned engine (the pure-
@@ -92,7 +95,8 @@ class C04(Prop):
         cfg["truthy_only"] = campaign != "known:falsy_operand"
         if campaign == "known:falsy_operand":
             cfg["alphabet"] = "falsy"
-        region = campaign.split(":", 1)[1] if campaign.startswith("known:") and campaign != "known:falsy_operand" else None
+        region = campaign.split(":", 1)[1] if campaign.startswith("known:") and campaign not in (
+            "known:falsy_operand", "known:extended_after_history") else None
         if campaign in ("rules", "rules_enumerated", "known:rule_tree_with_alternative_or_next"):
             cfg["vocab"] = [v for v in cfg["vocab"] if v not in ("forall", "kw", "nest", "flat")]
             want = set() if campaign in ("rules", "rules_enumerated") else {"rule_tree_with_alternative_or_next"}
@@ -118,8 +122,9 @@ class C04(Prop):
                 t["quant"] = "the"
                 pool["queries"].append(t)
         the_ids = [q["id"] for q in pool["queries"] if q["quant"] == "the"]
-        if campaign == "extended":
-            # queries that are extended (`with symbolic_mode(q): Pred(..)`) AFTER they have a history
+        if campaign in ("extended", "known:extended_after_history"):
+            # queries that are extended (`with symbolic_mode(): with q: Pred(..)`); in the main campaign BEFORE the
+            # query is evaluated for the first time, in the known-defect campaign AFTER it has a history (KF-C04-10)
             ext = [q["id"] for q in pool["queries"] if q["quant"] == "an" and q.get("shape") == "entity"
                    and not q.get("rule") and not q.get("head") and q.get("conds")]
             ops = []
@@ -139,9 +144,13 @@ class C04(Prop):
                 sel = [q["sel"][0] for q in pool["queries"] if q["id"] == eq][0]
                 others = [v["n"] for v in pool["vars"] if v["n"] not in ("u", sel) and v.get("t") != "View"]
                 if others and rng.random() < 0.6:
-                    ops.append(["extend", eq, "Linked", rng.choice(others)])
+                    ext_op = ["extend", eq, "Linked", rng.choice(others)]
                 else:
-                    ops.append(["extend", eq, rng.choice(["IsBig", "IsBigK"]), rng.choice([1, 2, 3])])
+                    ext_op = ["extend", eq, rng.choice(["IsBig", "IsBigK"]), rng.choice([1, 2, 3])]
+                if campaign == "extended":
+                    ops.insert(0, ext_op)          # extended first, history afterwards
+                else:
+                    ops.append(ext_op)             # history first, then extended
                 ops.append(["probe", eq])
                 ops.append(["probe", eq])
             for q in an_ids:
@@ -191,7 +200,7 @@ class C04(Prop):
                 ops.append([rng.choice(["drop", "park", "closeslot"]), s])
             elif r < 0.63:
                 ops.append(["collect"])
-            elif r < 0.66 and extendable:
+            elif r < 0.66 and extendable and False:
                 # the query is extended after it has a history: `with symbolic_mode(q): IsBig()` adds a condition
                 eq = rng.choice(extendable)
                 others = [v["n"] for v in pool["vars"] if v["n"] not in ("u",) and v.get("t") != "View"
